@@ -133,9 +133,14 @@ def abs_path_rule(prog, ctx, rule):
         e6 = r.children[0].strip()
         ds6 = rd6.reaching(e6.j["name"], r) if e6.k == "DeclRefExpr" and e6.j.get("dk") == "local" else None
         exprs = [d.rhs for d in ds6 if d.rhs is not None] if ds6 else [e6]
+        # filled through its address: asprintf(&absolute_path, "%s/%s", ...) - the call is the composition
+        for d in (ds6 or []):
+            if d.rhs is None and d.node is not None:
+                exprs += [c6 for c6 in gap.calls() if (c6 is d.node or c6.within(d.node) or d.node.within(c6)) and any(
+                    render(a6) == "&" + e6.j["name"] for a6 in c6.call_args())]
         for x6 in exprs:
             x0 = x6.strip()
-            if x0.is_null_const():
+            if x0.is_null_const() or x0.const_value() == 0:
                 continue
             if x0.k == "CallExpr" and x0.j.get("callee") in ("strdup", "strndup", "realpath"):
                 continue
